@@ -64,7 +64,7 @@ func NewInterp(ld *Loaded, cfg *RunConfig) (*Interp, error) {
 		globals: map[*ssa.Global]*Value{}, initDone: map[*ssa.Package]bool{}, initFailed: map[*ssa.Package]string{},
 		constCache: map[*ssa.Const]Value{}, fnsSeen: map[*ssa.Function]bool{}, stubsUsed: map[string]int{},
 		digitProv: map[uint32]*digitsProv{}, locs: map[*time.Location]*Native{}, pureCache: map[*ssa.Function]int{},
-		globalMaps: map[*MapV]bool{},
+		globalMaps: map[*MapV]bool{}, qcache: map[string]Result{},
 	}
 	for i := 0; i < 256; i++ {
 		in.byteTab[i] = in.ts.BV(8, uint64(i))
@@ -227,6 +227,7 @@ type RunSummary struct {
 	FactHits     int                 `json:"fact_hits"`
 	ModelHits    int                 `json:"model_hits"`
 	IntQ         int                 `json:"int_encoded_queries"`
+	CacheHits    int                 `json:"query_cache_hits"`
 	CrossChecked int                 `json:"cross_checked"`
 	CrossUnknown int                 `json:"cross_unknown"`
 	Functions    []string            `json:"functions_encoded"`
@@ -417,7 +418,7 @@ func runHarnesses(ld *Loaded, cfg *RunConfig, harnesses []string, workers int, m
 				}
 				sum.AssertsOK += rep.AssertsOK
 				sum.AssertsTriv += rep.AssertsTriv
-				if rep.AssertsOK > 0 {
+				if rep.NSymNondet > 0 && rep.PCLen > 0 && rep.Outcome == "done" {
 					sum.DistinctSym++
 				}
 				if rep.Steps > sum.MaxSteps {
@@ -469,6 +470,7 @@ func runHarnesses(ld *Loaded, cfg *RunConfig, harnesses []string, workers int, m
 				}
 			}
 			sum.IntQ += in.stats.IntQ
+			sum.CacheHits += in.stats.CacheHits
 			sum.Instrs += in.stats.Instrs
 			sum.Summaries += in.stats.Summaries
 			sum.FactHits += in.stats.FactHits
@@ -508,6 +510,8 @@ func main() {
 		cmdCheck(os.Args[2:])
 	case "selfcheck":
 		cmdSelfcheck(os.Args[2:])
+	case "replay":
+		cmdReplay(os.Args[2:])
 	default:
 		fmt.Fprintln(os.Stderr, "unknown command")
 		os.Exit(2)
